@@ -14,7 +14,7 @@ import (
 	"github.com/getkin/kin-openapi/routers"
 )
 
-//verif:harness id=C15 tier=quick,thorough witness=end bounds="ValidateRequest + ValidateResponse on one shared route/document/options: query integer parameter with default, header array parameter, security with callback, text/plain body with maxLength, response with required header and text body; request/response texts symbolic (1-2 bytes), presence by fork; MultiError symbolic; footprint monitor on every path"
+//verif:harness id=C15 tier=quick,thorough witness=end bounds="ValidateRequest + ValidateResponse on one shared route/document/options: query integer parameter with default, header array parameter, no or three path-level parameters in a slice with spare capacity, security with callback, text/plain body with maxLength, response with required header and text body; request/response texts symbolic (1-2 bytes), presence by fork; MultiError symbolic; footprint monitor on every path"
 func verifH_C15_filter() {
 	d := "d"
 	maxLen := verifNondetUint64("maxLen")
@@ -31,6 +31,15 @@ func verifH_C15_filter() {
 	}
 	spec := &openapi3.T{Components: &openapi3.Components{SecuritySchemes: openapi3.SecuritySchemes{"A": {Value: &openapi3.SecurityScheme{Type: "http", Scheme: "basic"}}}}}
 	route := &routers.Route{Spec: spec, PathItem: &openapi3.PathItem{Post: op}, Operation: op, Method: "POST"}
+	// path-level parameters: none, or three in a slice with spare capacity (as a decoder leaves it behind:
+	// an append to it would write into the shared backing array)
+	if verifChoose("pathLevel", 2) == 1 {
+		ps := make(openapi3.Parameters, 0, 4)
+		for _, name := range []string{"X-P1", "X-P2", "X-P3"} {
+			ps = append(ps, &openapi3.ParameterRef{Value: &openapi3.Parameter{Name: name, In: "header", Schema: str}})
+		}
+		route.PathItem.Parameters = ps
+	}
 	opts := &Options{MultiError: verifNondetBool("multi")}
 	opts.AuthenticationFunc = func(context.Context, *AuthenticationInput) error { return nil }
 
